@@ -29,7 +29,7 @@ type concOp struct {
 	run  func() string
 }
 
-var hostileOpts = gen.PSOpts{MaxTokens: 50, Errors: 5, MaxAlloc: 40, Hostile: true, PlainLex: true, Runaway: true, Stop: true, ForallDict: true}
+var hostileOpts = gen.PSOpts{MaxTokens: 50, Errors: 5, MaxAlloc: 40, Hostile: true, PlainLex: true, Runaway: true, Stop: true, ForallDict: false} // forall over a dictionary has no defined order in PostScript: a hostile `/pop {exit} def` would make the result legitimately order-dependent
 
 var nameSamples = []string{"A", "space", "fi", "f_i", "uni0041", "uni00410042", "u1F600", "a.sc", "Aacute", "a1", "a100", "a206", ".notdef", "germandbls", "T_h.liga", "uniD800", "zzz", "afii10017", "Lcommaaccent", "dalethatafpatah"}
 
